@@ -4,6 +4,7 @@ concretises abstract calls, runs them on a real FakedWBEMConnection, mutates
 every object passed in or handed out (isolation), projects results and a full
 dump (through the public API) back to abstract rows.
 """
+import copy
 import pywbem
 from pywbem import (CIMInstance, CIMInstanceName, CIMProperty, CIMError,
                     Uint32, Uint16, Uint8)
@@ -22,7 +23,17 @@ K2 = {1: "one", 2: ""}
 KV = {1: 1, 2: 0}
 SVAL = {"v1": "alpha", "v2": "beta"}
 TVAL = {"v1": 7, "v2": 9}
-UVAL = {"v1": "ux", "v2": "uy"}
+UVAL = {"v1": ["ux", "uz"], "v2": []}      # U is declared as string ARRAY
+ARRAYPROPS = ("u",)
+# legacy names of bad-property classes (old replays) -> shape tokens of
+# RepoCore.tla (ShapeTok: <property>_<CIM type>_<sc|ar>_<val|null>)
+BAD_ALIAS = {"wrongtype": "s_uint8_sc_val", "wrongnull": "s_uint8_sc_null",
+             "wrongarray": "s_string_ar_val"}
+BAD_TOKS = ["undeclared"] + [
+    "%s_%s_%s_%s" % (on, ty, arr, nul)
+    for on in ("s", "u") for ty in ("string", "uint8") for arr in ("sc", "ar")
+    for nul in ("val", "null")
+    if not (ty == "string" and (arr == "ar") == (on in ARRAYPROPS))]
 PNAME = {"s": ["S", "s"], "t": ["T", "t"], "u": ["U", "u"]}
 NOVALS = {"s": "unset", "t": "unset", "u": "unset"}
 
@@ -31,8 +42,10 @@ def tok_of(p, value):
     if value is None:
         return "null"
     table = {"s": SVAL, "t": TVAL, "u": UVAL}[p]
+    if isinstance(value, (list, tuple)) != (p in ARRAYPROPS):
+        return "UNCLASSIFIED"
     for t, v in table.items():
-        if value == v and not isinstance(value, (list, tuple)):
+        if value == v:
             return t
     return "UNCLASSIFIED"
 
@@ -60,7 +73,8 @@ def row_of(inst, path=None):
             continue
         if pn in inst.properties:
             row[pn] = tok_of(pn, inst.properties[pn].value)
-            if pn not in exposed:
+            if pn not in exposed or \
+                    bool(inst.properties[pn].is_array) != (pn in ARRAYPROPS):
                 row[pn] = "UNCLASSIFIED"
         else:
             row[pn] = "null" if pn in exposed else "na"
@@ -116,31 +130,44 @@ class Driver:
                 continue
             name = self.rng.choice(PNAME[pn])
             if v == "null":
-                props.append(CIMProperty(name, None, type=typ))
+                props.append(CIMProperty(name, None, type=typ,
+                                         is_array=pn in ARRAYPROPS))
             elif pn == "t":
                 props.append(CIMProperty(name, Uint16(table[v])))
             else:
-                props.append(CIMProperty(name, table[v], type="string"))
+                props.append(CIMProperty(name, copy.copy(table[v]),
+                                         type="string",
+                                         is_array=pn in ARRAYPROPS))
         if badprop == "undeclared":
             props.append(CIMProperty("ZZ", "zz", type="string"))
-        elif badprop == "wrongtype":
-            props = [p for p in props if p.name.lower() != "s"]
-            props.append(CIMProperty("S", Uint8(3)))
-        elif badprop == "wrongnull":
-            # type differs from the class declaration, value NULL
-            props = [p for p in props if p.name.lower() != "s"]
-            props.append(CIMProperty("S", None, type="uint8"))
-        elif badprop == "wrongarray":
-            props = [p for p in props if p.name.lower() != "s"]
-            props.append(CIMProperty("S", ["alpha"], type="string",
-                                     is_array=True))
+        elif badprop != "none":
+            # a shape class of RepoCore.tla: property <on> supplied with CIM
+            # type <ty>, as scalar/array, with a value or NULL
+            on, ty, arr, nul = badprop.split("_")
+            props = [p for p in props if p.name.lower() != on]
+            item = Uint8(3) if ty == "uint8" else \
+                self.rng.choice(["alpha", "ux", ""])
+            if arr == "ar":
+                value = self.rng.choice([[item], [item, item], []])
+            else:
+                value = item
+            props.append(CIMProperty(self.rng.choice(PNAME[on]),
+                                     None if nul == "null" else value,
+                                     type=ty, is_array=(arr == "ar")))
         self.rng.shuffle(props)
         return props
 
     def plist(self, has, pl):
         if not has:
             return None
-        return [self.rng.choice(PNAME[p]) for p in pl]
+        out = []
+        for p in pl:
+            if p == "k":     # the key properties: any non-empty selection
+                out += self.rng.choice([["K"], ["K2"], ["K", "K2"],
+                                        ["k2", "k"], ["k"]])
+            else:
+                out.append(self.rng.choice(PNAME[p]))
+        return out
 
     # -- observation -----------------------------------------------------------
     def dump(self):
@@ -189,6 +216,8 @@ class Driver:
                             pr.value = "mutated"
                         elif pr.type.startswith("uint") and not pr.is_array:
                             pr.value = 55
+                        elif isinstance(pr.value, list):
+                            pr.value.append("mutated")      # in place
                     o.properties["S"] = CIMProperty("S", "mutated2",
                                                     type="string")
                     o.properties["Extra"] = CIMProperty("Extra", "x",
@@ -206,6 +235,8 @@ class Driver:
     # -- operations ----------------------------------------------------------------
     def call(self, c):
         op = c["op"]
+        c["badprop"] = BAD_ALIAS.get(c["badprop"], c["badprop"])
+        c.setdefault("icls", c["cls"])
         fn = getattr(self, "do_" + op.lower())
         ev = fn(c)
         if self.mutate:
@@ -246,7 +277,10 @@ class Driver:
         path = self.path(c["ns"], c["cls"], c["k"])
         # the path is assigned after construction: the CIMInstance constructor
         # would otherwise overwrite the path's keybindings from key properties
-        inst = CIMInstance(path.classname, properties=props)
+        # the class name of the instance and the class name of its path are
+        # concretised independently (lexical case; c["icls"] != c["cls"] is
+        # the "really different classes" case of the requirement)
+        inst = CIMInstance(self.cls(c["icls"]), properties=props)
         inst.path = path
         pl = self.plist(c["hasplist"], c["plist"])
         self.calls.append("ModifyInstance(%r, PropertyList=%r)" % (inst, pl))
@@ -312,12 +346,13 @@ class Driver:
 
 
 def mkcall(op, ns=1, cls="A", k=1, vals=None, badprop="none", kprop=0,
-           hasplist=False, plist=(), deep=True):
+           hasplist=False, plist=(), deep=True, icls=None):
     v = dict(NOVALS)
     if vals:
         v.update(vals)
-    return dict(op=op, ns=ns, cls=cls, k=k, vals=v, badprop=badprop,
-                kprop=kprop, hasplist=hasplist, plist=list(plist), deep=deep)
+    return dict(op=op, ns=ns, cls=cls, icls=icls or cls, k=k, vals=v,
+                badprop=badprop, kprop=kprop, hasplist=hasplist,
+                plist=list(plist), deep=deep)
 
 
 def random_calls(rng, n):
@@ -330,18 +365,20 @@ def random_calls(rng, n):
         tok = lambda: rng.choice(["unset", "null", "v1", "v2"])  # noqa
         vals = dict(s=tok(), t=tok(), u=tok() if cls == "B" or
                     rng.random() < 0.1 else "unset")
-        bad = rng.choice(["none"] * 8 + ["undeclared", "wrongtype",
-                                         "wrongarray", "wrongnull"])
+        bad = "none" if rng.random() < 0.65 else rng.choice(BAD_TOKS)
         pls = [(), ("s",), ("t",), ("u",), ("s", "t"), ("s", "s", "t"),
-               ("t", "u")]
+               ("t", "u"), ("k",), ("k", "s"), ("t", "k")]
         hp = rng.random() < 0.4
         pl = rng.choice(pls) if hp else ()
         if x < 0.30:
             calls.append(mkcall("Create", ns, cls, rng.choice([0, 1, 1, 2, 2]),
                                 vals, bad))
         elif x < 0.50:
+            icls = cls if rng.random() < 0.9 else \
+                rng.choice(["A", "B", "X", "Z"])
             calls.append(mkcall("Modify", ns, cls, k, vals, bad,
-                                rng.choice([0, 0, 0, k, 3 - k]), hp, pl))
+                                rng.choice([0, 0, 0, k, 3 - k]), hp, pl,
+                                icls=icls))
         elif x < 0.60:
             calls.append(mkcall("Delete", ns, cls, k))
         elif x < 0.75:
@@ -369,4 +406,7 @@ def signature(ev, clauses):
     s = "%s:%s" % (ev["op"], "+".join(sorted(clauses)))
     if ev.get("pyerror"):
         s += ":" + ev["pyerror"]
+        if ev["op"] == "Modify" and ev["hasplist"] and "k" in ev["plist"] \
+                and ev["kprop"] == 0:
+            s += ":keylisted"    # PropertyList names an unsupplied key
     return s
